@@ -596,8 +596,8 @@ def FullStatementBuffering : Prop :=
 theorem full_statement_buffering : FullStatementBuffering :=
   fun custom progs sched hwf => buffering_meets_spec custom progs sched hwf
 
-/-- a stale logger's record that is buffered is also delivered by the FlushBuffer that follows (the oracle does not
-    require it — it is a different `slog.Logger` with the level it was built with — the repaired code does it) -/
+/-- a stale logger's record is buffered and delivered by the FlushBuffer that follows (the oracle requires it like any
+    other record accepted by the level its logger was built with: `mustDeliver`) -/
 theorem stale_record_buffered_and_flushed :
     writesOf (run Flags.fixed false [[.startBuffering, wStale 0, .flush]] (wRun 3)) = [(0, 0, true)] ∧
     writesOf (run Flags.fixed false [[.startBuffering, wStale 0]] (wRun 2)) = [] := by decide
